@@ -289,7 +289,15 @@ func oracleC11(f *sessionFam, w *World, res *Result) []Violation {
 				l.add("pending-poll-answered-at-close", "never", fmt.Sprintf("%s: poll #%d was pending when the session closed at %v (%s) and was never answered", r.Client, r.ID, ce.T, ce.S))
 			}
 			if ce := closeT[a]; ce != nil && r.Method == "GET" && !r.Aborted && r.NWH >= 1 && r.T0 <= ce.T {
-				if wh := w.Evs[r.SeqWH-1]; wh.T > ce.T {
+				// (an application listener or send callback that takes its time holds the transport's write lock
+				// for that long: the answer may be that late)
+				slack := time.Duration(0)
+				for _, re := range f.sc.Reent {
+					if re.Call == "sleep" && (re.Sess == "" || re.Sess == a) {
+						slack += time.Duration(re.Ms) * time.Millisecond
+					}
+				}
+				if wh := w.Evs[r.SeqWH-1]; wh.T > ce.T+slack {
 					l.add("pending-poll-answered-at-close", "", fmt.Sprintf("%s: poll #%d was pending when the session closed at %v but was answered only at %v", r.Client, r.ID, ce.T, wh.T))
 				}
 			}
@@ -368,6 +376,41 @@ func oracleC11(f *sessionFam, w *World, res *Result) []Violation {
 						// shutdown - may win the race against the overlap's transport error)
 						l.add("overlap-closes-session", ce.S, fmt.Sprintf("%s: overlapping %s requests closed the session with %q", a, x.Method, ce.S))
 					}
+				}
+			}
+		}
+	}
+	// the converse of the overlap rule: a request is refused as overlapping (400, empty body) only if another
+	// request of its kind really was outstanding when it arrived
+	for _, a := range sortedKeys(pending) {
+		p := pending[a]
+		for _, list := range [][]*Resp{p.get, p.post} {
+			for j, y := range list {
+				if y.Status != 400 || len(y.Body) != 0 || y.Aborted {
+					continue
+				}
+				yStart := reqSeq(w, y)
+				if ce := closeT[a]; ce != nil && ce.Seq < yStart+3 {
+					continue // the session was closing or closed: other rules
+				}
+				outstanding := false
+				for i, x := range list {
+					if i == j {
+						continue
+					}
+					xs := reqSeq(w, x)
+					if xs < yStart && (x.SeqWH == 0 || x.SeqWH > yStart) {
+						outstanding = true // x had arrived and was not answered yet
+					}
+					if x.T0 == y.T0 {
+						outstanding = true // same instant: order not observable
+					}
+				}
+				if sp := f.spec(a); sp == nil || len(sp.Raw) > 0 {
+					continue
+				}
+				if !outstanding {
+					l.add("refused-without-overlap", y.Method, fmt.Sprintf("%s: %s request #%d was answered 400 as overlapping although no other %s request of the session was outstanding when it arrived", a, y.Method, y.ID, y.Method))
 				}
 			}
 		}
